@@ -1081,6 +1081,57 @@ def run_cases(ctx: Ctx, kind: str, items: list):
     ctx.extra["workers"] = nw
 
 
+def dispatch_cases(ctx: Ctx, rng, n: int):
+    """the text layer of the codec: what decode_h5attr does with a stored text (a string, an empty container, or
+    `_literal_eval` of the rest), observed on the real code with `_literal_eval` replaced by a recorder, against the
+    model's dispatchText (theorem text_decode_encode)"""
+    from midgard.data import _h5utils
+
+    words = ["list", "tuple", "set", "dict", "str", "str_", "int", "float", "bool", "nan", "None", "List", "lists", ""]
+    rests = ["", "[]", "()", "set()", "list()", "tuple()", "dict()", "{}", " [1, 2]", "\t(1,)", "x y", " ", "  ", "nan", "str x", "()()"]
+    texts = list(TRICKY) + words + [w + " " + r for w in words for r in rests]
+    for _ in range(n):
+        k = rng.random()
+        if k < 0.5:
+            texts.append(rng.choice(words) + rng.choice(["", " ", "  ", "\t"]) + rng.choice(rests + TRICKY))
+        else:
+            texts.append("".join(rng.choice("lists tupledicr()[]{}_ 1,'") for _ in range(rng.randint(0, 9))))
+    real = _h5utils._literal_eval
+    try:
+        _h5utils._literal_eval = lambda attr: ("<literal_eval>", attr)
+        for t in texts:
+            if not all(32 <= ord(c) < 127 or c == "\t" for c in t):
+                continue
+            case = {"dispatch": hexs(t)}
+            ctx.case(case, nontrivial=True)
+            try:
+                out = _h5utils.decode_h5attr(t)
+            except Exception as ex:
+                impl = "ERR:" + type(ex).__name__
+            else:
+                if isinstance(out, tuple) and len(out) == 2 and out[0] == "<literal_eval>":
+                    impl = "P" + hexs(out[1])
+                elif isinstance(out, str):
+                    impl = "S" + hexs(out)
+                elif out == [] and isinstance(out, list):
+                    impl = "E:list"
+                elif out == () and isinstance(out, tuple):
+                    impl = "E:tuple"
+                elif isinstance(out, set) and not out:
+                    impl = "E:set"
+                elif isinstance(out, dict) and not out:
+                    impl = "E:dict"
+                else:
+                    impl = "?" + repr(out)[:40]
+            model = ctx.driver.ask1("c10 dispatch " + hexs(t))
+            ctx.traces += 1
+            ctx.count("dispatch:" + impl[:2].rstrip(":"))
+            if model != impl:
+                ctx.disagree("text layer of the codec (dispatch on the first word)", case, model, impl)
+    finally:
+        _h5utils._literal_eval = real
+
+
 def run(ctx: Ctx):
     ctx.proof = common.prove("C10")
     _register_time()
@@ -1117,6 +1168,7 @@ def run(ctx: Ctx):
                     codec_case(ctx, tokens_meta(c["codec"]))
                 else:
                     one_dataset(ctx, c["ops"], c["level"], {k: tokens_meta(v) for k, v in c.get("meta", {}).items()}, tmp, "corpus", c.get("mult"), c.get("tattr"), tokens_meta(c["vars"]) if c.get("vars") else None)
+        dispatch_cases(ctx, rng, ctx.budget(1500, 20000))
         for t in TRICKY:
             codec_case(ctx, t)
             codec_case(ctx, [t, {"k": t}])
